@@ -229,6 +229,7 @@ type zzHandler struct {
 	ctxs  []Context
 	ret   status.Status
 	panic bool
+	free  bool // the handler frees its channel itself before it returns (sloppy but legal use)
 }
 
 func zzNewHandler() *zzHandler {
@@ -239,6 +240,9 @@ func (h *zzHandler) HandleChannel(ctx Context, ch Channel) status.Status {
 	h.calls++
 	h.chans = append(h.chans, ch)
 	h.ctxs = append(h.ctxs, ctx)
+	if h.free {
+		ch.Free()
+	}
 	if h.panic {
 		panic("handler panic")
 	}
